@@ -876,7 +876,10 @@ where
                 // give up our personal token while we wait for the lock to
                 // be released; but we should never run ensure_token() while
                 // holding a lock, or we could cause deadlocks.
-                server.release_mine()?;
+                if server.has_token() {
+                    // wait_all() may already have left us without any token.
+                    server.release_mine()?;
+                }
                 lock.wait_lock(LockType::Exclusive)?;
                 // now t is definitely free, so we get to decide whether
                 // to build it.
